@@ -10,4 +10,4 @@ for _n in ('NEW', 'DONE', 'FAILED', 'CANCELED', 'FINAL'):
 for _n in ('FREE', 'BUSY', 'DOWN'):
     REG.consts[_n] = REG.consts['rpc'].lookup(_n)
 
-from . import types, effects, states, wait, client_state, session, descr, raptor, sched_agent, pilot_state, platforms, rm, tmgr_sched, executor, sched_loop, tmgr_backfill, launch, staging, scripts   # noqa
+from . import types, effects, states, wait, client_state, session, descr, raptor, sched_agent, pilot_state, platforms, rm, tmgr_sched, executor, sched_loop, tmgr_backfill, launch, staging, scripts, app_nodes   # noqa
